@@ -290,13 +290,36 @@ class PathEnumerator(object):
                         return left >= right
                 except TypeError:
                     pass
+            # a boolean-valued state predicate is never None
+            if isinstance(e.ops[0], (ast.Is, ast.IsNot)) and (
+                    (right is None and isinstance(left, Sym)) or (left is None and isinstance(right, Sym))):
+                sym = left if isinstance(left, Sym) else right
+                is_bool = getattr(self.atomizer, "is_boolean", None)
+                if is_bool is not None and sym.node is not None and is_bool(sym.node, self):
+                    return isinstance(e.ops[0], ast.IsNot)
             atom = self.atomizer(self._subst(e), self)
-            return self.oracle(atom)
+            return self._decide(atom)
         v = self._eval(e)
         if isinstance(v, Sym):
             if v.kind == "expr" and v.node is not e and isinstance(v.node, ast.BoolOp):
                 # the truth of a stored and/or is the and/or of the truths of its operands
                 return self._truth(v.node)
             atom = self.atomizer(v if v.kind == "filter" else (v.node if v.node is not None else e), self)
-            return self.oracle(atom)
+            return self._decide(atom)
         return bool(v)
+
+    def _decide(self, atom):
+        """Truth of what the atomizer returned: an atom, ('not', atom) or ('any', [atoms])."""
+        if atom and atom[0] == "not":
+            return not self._decide(atom[1])
+        if atom and atom[0] == "any":
+            for a in atom[1]:
+                if self._decide(a):
+                    return True
+            return False
+        if atom and atom[0] == "all":
+            for a in atom[1]:
+                if not self._decide(a):
+                    return False
+            return True
+        return self.oracle(atom)
